@@ -347,8 +347,11 @@ def run_check(mod, tier, seed):
         "wall_s": round(wall, 2),
         "violations": len(failures),
     }
-    os.makedirs(os.path.join(HOME, "evidence"), exist_ok=True)
-    with open(os.path.join(HOME, "evidence", f"{pid}.json"), "w", encoding="utf8") as fh:
+    # VERIF_EVIDENCE_DIR: used when the checks are pointed at a scratch copy (mutation runs), so that
+    # the committed evidence always describes /repo itself
+    evidence_dir = os.environ.get("VERIF_EVIDENCE_DIR") or os.path.join(HOME, "evidence")
+    os.makedirs(evidence_dir, exist_ok=True)
+    with open(os.path.join(evidence_dir, f"{pid}.json"), "w", encoding="utf8") as fh:
         json.dump(evidence, fh, indent=1, sort_keys=True)
         fh.write("\n")
 
